@@ -183,6 +183,7 @@ pub fn pipes_unreleased(ctx: &RunCtx) -> Option<(&'static str, String, String)> 
     for (p, pd) in ctx.prog.pipes.iter().enumerate() {
         let st = &ctx.pipes[p];
         if st.created.load(ORD) == 0 { continue; }
+        if ctx.prog.panics && object_panicked(ctx, pd.obj) { continue; }   // a pipe into a panicked object is dead with its queue
         let input_closed = st.closed_stamp.load(ORD) != 0;
         let stream_dropped = st.stream_dropped.load(ORD) != 0;
         let obj_dead_then_event = {
